@@ -29,9 +29,9 @@ def budget(tier):
 def _cases(draw, tier):
     shape = draw(st.sampled_from(['any', 'any', 'few_lecturers', 'many_lecturers']))
     k = pct(draw)
-    if k >= 98 or (tier == 'thorough' and k >= 96):
+    if k >= 98:
         # a second-side agent ranked by more than a thousand first-side agents
-        mp = draw(st.sampled_from(['hr', 'hr', 'spa', 'sm'] if tier == 'thorough' else ['hr', 'spa']))
+        mp = draw(st.sampled_from(['hr'] * 12 + ['spa'] * 7 + ['sm'] if tier == 'thorough' else ['hr', 'spa']))
         n1 = draw(st.sampled_from([1001, 1100, 1300]))
         v = {'mp': mp, 'numinst': 1, 'n1': n1, 'twopl': True, 'seed': uni(draw, 0, 9999),
              't2': draw(st.sampled_from([None, 0.0, 0.3]))}
